@@ -54,15 +54,24 @@ pub(crate) fn open<Fd: AsFd, P: AsRef<Path>>(
         ..Default::default()
     };
 
-    syscalls::openat2(&root, path.as_ref(), &how)
-        .map(File::from)
-        .map_err(|err| {
-            ErrorImpl::RawOsError {
-                operation: "openat2 one-shot open".into(),
-                source: err,
-            }
-            .into()
-        })
+    // Like resolve(), retry a bounded number of times if openat2(2) fails with
+    // -EAGAIN because of a racing rename or mount somewhere on the system.
+    for _ in 0..16 {
+        match syscalls::openat2(&root, path.as_ref(), &how) {
+            Ok(file) => return Ok(File::from(file)),
+            Err(err) => match err.root_cause().raw_os_error() {
+                Some(libc::EAGAIN) => continue,
+                _ => Err(ErrorImpl::RawOsError {
+                    operation: "openat2 one-shot open".into(),
+                    source: err,
+                })?,
+            },
+        }
+    }
+
+    Err(ErrorImpl::SafetyViolation {
+        description: "racing filesystem changes caused openat2 to abort".into(),
+    })?
 }
 
 /// Resolve `path` within `root` through `openat2(2)`.
@@ -159,5 +168,7 @@ pub(crate) fn resolve_partial<Fd: AsFd>(
         }
     }
 
-    unreachable!("partial_ancestors should include root path which must be resolvable");
+    // Even the root itself could not be resolved (for instance because we ran
+    // out of file descriptors), so there is no partial result to return.
+    Err(last_error)
 }
